@@ -12,7 +12,7 @@ import (
 func init() {
 	register(&propDef{
 		id: "C10", level: "other", perCfg: false,
-		explain: "Necessary structural conditions of C10, decided for all paths (hence all byte streams and abort points that reach them). S1 bad frame: on the decode-error edge of the dispatch entry there is no delivery and no reply write, the decode error is returned, and in the connection loop a dispatch error cannot reach another read or dispatch and every exit closes the connection. S2 incomplete frame: the dispatch call in the loop is dominated by `read error == nil` of the same iteration's delimiter read. S3 release on every exit: the handler's first action defers the release (counter decrement under the mutex and wg.Done), the release happens exactly once on every path through the handler (defers included), the per-connection context is derived with WithCancel and its cancel is deferred before the loop. S4 isolation: the request is decoded into a fresh zero value (so the literal null yields an empty call, answered like a call without method) and per-connection code writes no shared state except the counter. S6 no blocking operation (connection I/O, user dispatcher, Accept, WaitGroup.Wait) is performed while the Service mutex is held, so a peer that stops reading cannot stall the accept loop, other connections or Shutdown. S5 panic census: every slice, index, single-result type assertion, division, explicit panic and dereference of an optional wire member in repo code reachable from the connection loop (ctxio included) is discharged by a dominating fact or a named library lemma. S9 raw connection: in the connection handler's view (package ctxio kept as calls) the accepted net.Conn and everything derived from it (conversions, type assertions, spills) is never the receiver of Read/Write/ReadFrom/WriteTo and is never handed to code outside the repository through a parameter whose interface has Read or Write (io.Copy, ioutil.ReadAll, bufio): the only blocking I/O on the connection is the context-aware wrapper's.",
+		explain: "Necessary structural conditions of C10, decided for all paths (hence all byte streams and abort points that reach them). S1 bad frame: on the decode-error edge of the dispatch entry there is no delivery and no reply write, the decode error is returned, and in the connection loop a dispatch error cannot reach another read or dispatch and every exit closes the connection. S2 incomplete frame: the dispatch call in the loop is dominated by `read error == nil` of the same iteration's delimiter read. S3 release on every exit: the handler's first action defers the release (counter decrement under the mutex and wg.Done), the release happens exactly once on every path through the handler (defers included), the per-connection context is derived with WithCancel and its cancel is deferred before the loop. S4 isolation: the request is decoded into a fresh zero value (so the literal null yields an empty call, answered like a call without method) and per-connection code writes no shared state except the counter. S6 no blocking operation (connection I/O, user dispatcher, Accept, WaitGroup.Wait) is performed while the Service mutex is held, so a peer that stops reading cannot stall the accept loop, other connections or Shutdown. S5 panic census: every slice, index, single-result type assertion, division, explicit panic and dereference of an optional wire member in repo code reachable from the connection loop (ctxio included) is discharged by a dominating fact or a named library lemma. S9 raw connection: in the connection handler's view (package ctxio kept as calls) the accepted net.Conn and everything derived from it (conversions, type assertions, spills) is never the receiver of Read/Write/ReadFrom/WriteTo and is never handed to code outside the repository through a parameter whose interface has Read or Write (io.Copy, ioutil.ReadAll, bufio): the only blocking I/O on the connection is the context-aware wrapper's. S1 also: every complete frame reaches the decoder unchanged. S7 (= C02.F2), S8 (= C17.D1-D3). S10 a failed reply write is reported to the caller (the loop ends). S11 (= C16.LB) lock balance: on every path the Service mutex is released as often as it was taken. S12 error discipline of the service side (engine errdisc: success only where the error is known nil, no use of a result whose error may be set, no dropped repo error, no inverted test).",
 		notDec:  "Hangs caused by a peer that neither reads nor closes (no write deadline is part of the API); kernel resource release; panics inside encoding/json, bufio, net; user dispatchers.",
 		trusted: []string{"bufio.Reader.ReadBytes returns err == nil only with a result ending in the delimiter (non-empty)", "encoding/json.Unmarshal does not panic on any input", "strings.LastIndex result r satisfies -1 <= r <= len(s)-len(sep)"},
 		run:     runC10,
